@@ -512,6 +512,9 @@ func c13Introspect(c *Ctx, m *gonnx.Model, ins []sigInput) {
 			}
 			if n, err := m.InputDimSize(in.name, d); err != nil || (dim.Value > 0 && int64(n) != dim.Value) {
 				c.Violation("introspection:InputDimSize", "%s axis %d: %d, %v (declared %d)", in.name, d, n, err, dim.Value)
+			} else if int64(n) != sh[d].Size {
+				// the two introspection methods describe the same signature (also for inputs that have a default)
+				c.Violation("introspection:InputDimSize", "%s axis %d: InputDimSize reports %d, InputShapes reports size %d (dynamic %v)", in.name, d, n, sh[d].Size, sh[d].IsDynamic)
 			}
 			if sh[d].Name != dim.Param {
 				c.Violation("introspection:dim-name", "%s axis %d: name %q, declared %q", in.name, d, sh[d].Name, dim.Param)
